@@ -356,10 +356,10 @@ def main(argv=None):
         with open(os.path.join(ROOT, "evidence", f"{pid}.json"), "w") as f:
             json.dump(ev, f, indent=1, default=str)
     print(f"SUMMARY property={pid} tier={a.tier} configs={len(results)} paths={total_paths} obligations={n_obl} proved={n_proved} inconclusive={n_incon} known={sum(len(v) for v in known_hits.values())} new_violations={len(violations)} solver_s={solver_s:.1f} wall_s={wall:.1f}")
-    if harness_errors:
-        sys.exit(2)
     if violations:
         sys.exit(1)
+    if harness_errors:
+        sys.exit(2)
     sys.exit(0)
 
 
